@@ -147,7 +147,18 @@ def one_run(cfg, d, runid):
                     k = 0
                     while True:
                         if cfg.get("closeat") is not None and k == cfg["closeat"] and callno == 0:
-                            log(lp, ev="Close"); r.close(); kind = "closed"; break
+                            if not cfg.get("close_in_other_thread"): log(lp, ev="Close")
+                            if cfg.get("close_in_other_thread"):
+                                # the generator is handed over to another thread which closes it (producer / consumer pattern):
+                                # joblib then aborts in a detached thread of its own; wait for it before using the object again
+                                ct = threading.Thread(target=r.close); ct.start(); ct.join(30)
+                                for th2 in list(threading.enumerate()):
+                                    if th2.name == "GeneratorExitThread": th2.join(30)
+                                # the abort runs asynchronously here: "closed" is the moment it has completed
+                                log(lp, ev="Close")
+                            else:
+                                r.close()
+                            kind = "closed"; break
                         log(lp, ev="Next")
                         try:
                             x = next(r); log(lp, ev="Yield", c=x[0], i=x[1]); k += 1
